@@ -147,6 +147,8 @@ Record variant := {
                                    is None (true) or whenever it is falsy, e.g. "" (false; C03) *)
   vr_bundle20_recheck : bool;   (* a 2.0 bundle also refuses a member whose PARSED object carries spec_version (true;
                                    C01) or only looks at the given dictionary (false) *)
+  vr_md20_default_ms : bool;    (* v20 MarkingDefinition: the clock default of `created` is kept at millisecond
+                                   precision too (true) or only a given `created` is (false) *)
   vr_ext_order_sorted : bool    (* with an unregistered toplevel-property-extension the extra and custom properties
                                    form one sorted run (true) or a set's iteration order then the sorted custom
                                    names (false: modelled sorted; C01) *)
@@ -156,13 +158,15 @@ Definition variant_pinned : variant :=
      vr_sel_upper := false; vr_ref_flip_unreg := false; vr_parse_guard_custom := false; vr_ext_scan_guard := false;
      vr_detect_default := false; vr_d2s_ext_guard := false; vr_toplevel_needs_slot := false; vr_ext_nonempty := false;
      vr_marking_flag := false; vr_flag_from_stored := false; vr_sock_int := false;
-     vr_positional_none := false; vr_bundle20_recheck := false; vr_ext_order_sorted := false |}.
+     vr_positional_none := false; vr_bundle20_recheck := false; vr_md20_default_ms := false;
+     vr_ext_order_sorted := false |}.
 Definition variant_repaired : variant :=
   {| vr_hex_z := true; vr_key_z := true; vr_sel_z := true; vr_hash_z := true; vr_interop_z := true; vr_uuid_canon := true; vr_year_pad := true;
      vr_sel_upper := true; vr_ref_flip_unreg := true; vr_parse_guard_custom := true; vr_ext_scan_guard := true;
      vr_detect_default := true; vr_d2s_ext_guard := true; vr_toplevel_needs_slot := true; vr_ext_nonempty := true;
      vr_marking_flag := true; vr_flag_from_stored := true; vr_sock_int := true;
-     vr_positional_none := true; vr_bundle20_recheck := true; vr_ext_order_sorted := true |}.
+     vr_positional_none := true; vr_bundle20_recheck := true; vr_md20_default_ms := true;
+     vr_ext_order_sorted := true |}.
 
 (* What the constructor draws from outside: its clock reading (one per constructor call: microseconds
    since 0001-01-01T00:00:00Z), the text of uuid.uuid4() and the text of the uuid5 of a 2.1 observable's
